@@ -305,7 +305,9 @@ def observe(data, scratch, warm=False):
                 writing = isinstance(mode, str) and any(c in mode for c in "wax+")
                 inside = isinstance(target, str) and os.path.abspath(target).startswith(scratch.path)
                 base = os.path.basename(target) if isinstance(target, str) else None
-                if writing and not (inside and base in ALLOWED_NEW_FILES):
+                # only the CLI's own --check-safety run may write its (declared) report file
+                allowed = ALLOWED_NEW_FILES if name.startswith("cli --check-safety") else ()
+                if writing and not (inside and base in allowed):
                     msg = f"{name}: opened {target!r} with mode {mode!r}"
                     break
         if msg:
@@ -451,6 +453,14 @@ def _big(n, payload, where):
     return blob + payload if where == "before" else payload[:-1] + b"0" + blob + b"N."
 
 
+def _deep(d, kind):
+    if kind == "tuple":
+        return b"cos\nsystem\n0N" + b"\x85" * d + b"."
+    return b"(" * d + b"l" * d + b"."
+
+
+# deeply nested values (well inside and around the interpreter's recursion limit)
+DEEP_INPUTS = tuple(_deep(d, k) for d in (130, 150, 200, 280, 400) for k in ("tuple", "list"))
 BIG_INPUTS = (
     _big(1_300_000, b"cos\nsystem\n(S'touch VERIF_PWNED'\ntR.", "before"),
     _big(1_300_000, b"cverif_canary\nfire\n(S'x'\ntR.", "after"),
@@ -639,6 +649,15 @@ def run_shard(spec, seed):
                              sample={"big": len(big), "head": big[:60].hex()})  # fmt: skip
                     if f is not None:
                         f.case = {"big": BIG_INPUTS.index(big)}
+                        res.failures.append(f)
+                        return res
+
+            if spec["idx"] in (2, 3):
+                for deep in DEEP_INPUTS[spec["idx"] - 2::2]:
+                    f, reached = judge(deep, scratch)
+                    res.note(deep, True, klass=["deep-nesting"] + [f"returned:{n}" for n in sorted(reached)],
+                             sample={"deep": len(deep), "head": deep[:40].hex()})  # fmt: skip
+                    if f is not None:
                         res.failures.append(f)
                         return res
 
